@@ -673,6 +673,12 @@ def _range_is_empty(ex, c, a, dt):
 @native(('Range', 'contains'), ('RangeInclusive', 'contains'))
 def _range_contains(ex, c, a, dt):
     r = deref(a[0]); x = deref(a[1])
+    if type(x) in (Struct, Tup):
+        lo = cmp_val(ex, r.f[0].v, x) <= 0
+        if not lo:
+            return False
+        hi = cmp_val(ex, x, r.f[1].v)
+        return hi < 0 if c.head == 'Range' else hi <= 0
     lo = binop('Le', r.f[0].v, x, 'usize')
     hi = binop('Lt' if c.head == 'Range' else 'Le', x, r.f[1].v, 'usize')
     if lo is False or hi is False:
@@ -1130,13 +1136,16 @@ def default_of(ex, ty):
     if h == 'tuple' and t == '()': return UNIT
     if h == 'Arc':
         return ArcV(Cell(default_of(ex, t[t.index('<') + 1:-1])))
+    if h == 'Range':
+        inner = t[t.index('<') + 1:-1]
+        return Struct('std::ops::Range', [Cell(default_of(ex, inner)), Cell(default_of(ex, inner))], ['start', 'end'])
     return ex.call('<%s as Default>::default' % t, [], ty)
 @tnative(('Default', 'default'))
 def _default(ex, c, a, dt):
     h = c.head
     t = c.selfty
     if h in ('Vec', 'VecDeque', 'HashMap', 'BTreeMap', 'HashSet', 'BTreeSet', 'String', 'Option', 'bool', 'usize', 'u8', 'u16', 'u32',
-             'u64', 'i32', 'i64', 'isize', 'Arc', 'tuple'):
+             'u64', 'i32', 'i64', 'isize', 'Arc', 'tuple', 'Range'):
         return default_of(ex, t)
     raise Unsupported('Default for ' + str(t))
 
@@ -1740,3 +1749,38 @@ for _m in ('map', 'filter', 'filter_map', 'flat_map', 'flatten', 'cloned', 'coll
             TRAIT_NATIVES[(_t, _m)] = TRAIT_NATIVES[('Iterator', _m)]
 TRAIT_NATIVES[('ParallelIterator', 'find_first')] = TRAIT_NATIVES[('Iterator', 'find')]
 TRAIT_NATIVES[('ParallelIterator', 'find_any')] = TRAIT_NATIVES[('Iterator', 'find')]
+
+_orig_contains = NATIVES[('str', 'contains')]
+@native(('str', 'contains'))
+def _contains2(ex, c, a, dt):
+    ls = _linestr(a[0])
+    if ls is None:
+        return _orig_contains(ex, c, a, dt)
+    p = deref(a[1])
+    if isinstance(p, int): p = chr(p)
+    if isinstance(ls, LineStr):
+        if p == '\r\n': return any(t == '\r\n' for n, t in ls.lines)
+        if p == '\n': return any(t != '' for n, t in ls.lines)
+        if p == '\r': return any(t == '\r\n' for n, t in ls.lines)
+    raise Unsupported('contains(%r) on line-structured string' % p)
+@native(('str', 'matches'), ('str', 'match_indices'))
+def _matches(ex, c, a, dt):
+    ls = _linestr(a[0])
+    p = deref(a[1])
+    if isinstance(p, int): p = chr(p)
+    if ls is None:
+        s = as_str(a[0])
+        idx = [i for i in range(len(s)) if s.startswith(p, i)]
+        if c.method == 'matches': return ListIt([strref(p) for _ in idx])
+        return ListIt([Tup([Cell(len(s[:i].encode())), Cell(strref(p))]) for i in idx])
+    if not isinstance(ls, LineStr) or p not in ('\n', '\r\n'):
+        raise Unsupported('matches(%r) on line-structured string' % p)
+    out, off = [], 0
+    for n, t in ls.lines:
+        if t == '\r\n' or (t == '\n' and p == '\n'):
+            pos = binop('Add', off, n, 'usize') if p == '\r\n' or t == '\n' else binop('Add', off, binop('Add', n, 1, 'usize'), 'usize')
+            if p == '\n' and t == '\r\n':
+                pos = binop('Add', off, binop('Add', n, 1, 'usize'), 'usize')
+            out.append(strref(p) if c.method == 'matches' else Tup([Cell(pos), Cell(strref(p))]))
+        off = binop('Add', off, binop('Add', n, len(t), 'usize'), 'usize')
+    return ListIt(out)
